@@ -151,7 +151,18 @@ EXTRA4 = {
  "C19": " Second life of a client (Close, Initialize: handshake, listening stream and calls are customised as in the first); TerminateSession under a context that has already ended sends nothing.",
  "C20": " TestC20Reconnect: a session's listening stream is replaced 3-40 times (with or without Last-Event-ID) while 1-4 goroutines keep sending notifications, broadcasts and server requests to it. The client workload also runs on stateless servers, with users of the session object that read before they write.",
 }
-for _e in (EXTRA, EXTRA3, EXTRA4):
+# additions made during the fifth round (untouched clauses of the statements, slips far from the obvious path)
+EXTRA5 = {
+ "C01": " One call in five carries no arguments at all (answered from no arguments).",
+ "C02": " One string in twelve is a word the protocol itself uses or a printf verb (error, result, null, \"error\", 100% %d ...); JSON trees use such keys and values too; results without content items are returned without a Content slice.",
+ "C04": " Every earlier listening stream of a session is followed to its end at DELETE; the server options are given in rotated orders.",
+ "C06": " Requests that are wrong twice: an id that is an array, object or boolean on a request the server must refuse.",
+ "C07": " One case in twelve on the legacy and listening streams runs over loopback TCP with the library's own HTTP handler after the stream has carried 3 or 20 MiB of comments and unknown events.",
+ "C08": " HTTP clients may be created with a retry option (30 s backoff): the hit call is between two attempts when its context ends. The stdio server process may have a helper of its own that inherits its stdout / stderr and outlives it.",
+ "C09": " Padding class with quotes, backslashes and percent signs. get-multi: 2-5 sessions' streams written at the same time (a message appears on its own session's stream only). get-stalled (one case in forty): the peer takes no bytes for 0.3 / 5.6 s during one event's flush while more events are sent - Write and Flush calls on one stream never overlap.",
+ "C10": " Servers with sessions disabled and event-stream answers; notification payloads contain printf verbs.",
+}
+for _e in (EXTRA, EXTRA3, EXTRA4, EXTRA5):
     for _k, _v in _e.items():
         _t = list(T[_k]); _t[2] = _t[2] + _v; T[_k] = tuple(_t)
 
